@@ -535,8 +535,8 @@ impl Property for C05 {
     }
     fn budget(&self, tier: Tier) -> (u32, usize) {
         match tier {
-            Tier::Quick => (12_000, 8),
-            Tier::Thorough => (400_000, 16),
+            Tier::Quick => (150_000, 8),
+            Tier::Thorough => (3_000_000, 16),
         }
     }
     fn run(&self, case: &RetryCase) -> Report {
